@@ -38,6 +38,11 @@ def family(rng, tier, forms_secret=SECRET_FORMS, forms_dh=DH_FORMS, want_pred=No
                 if n > 200:   # long messages: sample the bit flips (every 61st) — the rest is identical code
                     fam = [x for j, x in enumerate(fam) if not x[0].startswith("flip-body") or j % 61 == 0]
                 for label, l, initial in fam:
+                    if label == "extend-shortbuf":
+                        cs.append(Case(l, cls=label + "/" + f, expect=(lambda a: not a.startswith("ok")),
+                                       meta={"why": "an extended ciphertext was accepted when the caller's buffer has the original plaintext length",
+                                             "panic_ok": True, "no_sodium": True, "no_spec": True}))
+                        continue
                     pred = want_pred(initial) if want_pred else (lambda a: a.startswith("err"))
                     cs.append(Case(l, cls=label + "/" + f, expect=pred, meta={"why": "a tampered input (%s) was not rejected" % label}))
     return cs
